@@ -38,6 +38,11 @@ CHECKS["C07"] = ("fault_enumeration",
  "For ~85 finite and infinite programs x 3 inputs every cancellation point k = 0..N is enumerated, where k is the index of the VM's poll of ctx.Done() driven by a poll-counting context (no timers, fully deterministic; N = the run's own length + 2, or a horizon of 3000, thorough 12000, for infinite programs). Each case checks: values before the cancellation are exactly the prefix the uncancelled trace had produced by poll k, the Next that polled returns the context's error without executing another instruction, the iterator is exhausted afterwards and never polls again. Additionally cancellation between two Next calls after every output, the iterator lifecycle (false forever, no panic after an error, cancellation after exhaustion) over the corpus and an error grammar, and the entry points that must report problems as error values. A program that never reaches a poll is caught by a per-case watchdog and reported as a violation.",
  "Trusted: the VM polls ctx.Done() once per instruction (that is what makes a poll index a cancellation point); steps that do not poll at all are only visible through the between-calls histories and the hang watchdog.",
  "DESIGN.md §4 C07")
+CHECKS["C20"] = ("exploration",
+ "exhaustive enumeration of iteration forms and tail-position context nestings with a per-instruction state invariant (footprint probe through the poll seam)",
+ "Every listed iteration form and every generated definition def f: T[f] with T ranging over all nestings (depth <= 3, thorough 4) of 14 tail-position contexts, plain and emitting, nested and mutually nested, is run at n and 8n iterations while the VM footprint (fork stack, data/scope/path stacks live and allocated, register file, frame offset) is read at every single instruction; the peak of every component must be identical at n and 8n. Non-tail controls must show growth, so the probe is known to be sensitive. The no-leak bound of the persistent stacks is checked by the explicit-state stack search shared with C01.",
+ "Trusted: the footprint accessor (build tag verif). One known finding: tail calls to another function are not eliminated (attributed by inspecting the compiled code for such a call site).",
+ "DESIGN.md §4 C20")
 NOT_YET = "check not built yet (work in progress in this session); see DESIGN.md for the planned exploration"
 
 def commits():
